@@ -7,6 +7,14 @@ the whole case, `in-ns` really switches it), every read compiled once per mode
 (use_var_indirection x inline_functions) and executed.  Namespaces are in-memory ones
 (`Namespace.require` falls back to the namespace cache when no file exists; the module
 global assigned by `require*` and the alias are the same as for file-backed namespaces).
+
+Thread bindings: a `push` step enters a binding of the interned Var, every following step up to
+the `pop` that leaves it -- defs and reads compiled by the real compiler included -- runs inside
+its dynamic extent.  "bind": "rt" calls runtime.push_thread_bindings / pop_thread_bindings (what
+`binding` expands to); "bind": "form" compiles and runs the macro form
+`(basilisp.core/binding [ns/name v] (c10h/cb))` where the Var c10h/cb holds a Python callback that
+runs the following steps and returns at the pop step, so that the form's own try/finally leaves
+the binding.
 """
 import itertools
 import os
@@ -21,6 +29,10 @@ def setup():
     from basilisp.lang import compiler, reader, runtime, symbol as sym, util
     nsvar = runtime.Var.find(sym.symbol("*ns*", ns="basilisp.core"))
     core = runtime.Namespace.get(sym.symbol("basilisp.core"))
+    from basilisp.lang import map as lmap
+    runtime.Namespace.get_or_create(sym.symbol("c10h"))
+    _state["cbvar"] = runtime.Var.intern(sym.symbol("c10h"), sym.symbol("cb"), None)
+    _state["lmap"] = lmap
     _state.update(
         compiler=compiler, reader=reader, runtime=runtime, sym=sym, util=util, nsvar=nsvar,
         alter=core.find(sym.symbol("alter-var-root")).value,
@@ -144,61 +156,148 @@ def run(case):
     step_ctx = _ctx(0, 1)
     ctxs = [_ctx(ind, inl) for ind, inl in modes]
     created = set(nss)
-    out = []
+    steps = case["steps"]
+    nsteps = len(steps)
+    out = [None] * nsteps
+    bind = case.get("bind") or "rt"
+    rt_depth = [0]          # frames pushed through runtime.push_thread_bindings and not yet popped
     for n in nss:
         rt.Namespace.get_or_create(sym.symbol(n))
+
+    def interned(ns_name, name):
+        ns = rt.Namespace.get(sym.symbol(sub(ns_name)))
+        return ns.interns.val_at(sym.symbol(sub(name)), None) if ns is not None else None
+
+    def base_step(op):
+        ok, err = True, None
+        try:
+            if op[0] == "def":
+                _eval(f"(def {_meta(op[2])}{sub(op[1])} {int(op[3])})", step_ctx)
+            elif op[0] == "in-ns":
+                created.add(sub(op[1]))
+                _eval(f"(basilisp.core/in-ns '{sub(op[1])})", step_ctx)
+            elif op[0] == "require":
+                if op[2] is None:
+                    _eval(f"(basilisp.core/require '{sub(op[1])})", step_ctx)
+                else:
+                    _eval(f"(basilisp.core/require '[{sub(op[1])} :as {sub(op[2])}])", step_ctx)
+            elif op[0] == "refer":
+                if op[2]:
+                    names = " ".join(sub(x) for x in op[2])
+                    _eval(f"(basilisp.core/refer '{sub(op[1])} :only '[{names}])", step_ctx)
+                else:
+                    _eval(f"(basilisp.core/refer '{sub(op[1])})", step_ctx)
+            elif op[0] == "alter":
+                var = interned(op[1], op[2])
+                if var is None:
+                    ok, err = False, "NoVar"
+                else:
+                    _state["alter"](var, _state["constantly"](int(op[3])))
+            else:
+                raise ValueError(f"bad op {op!r}")
+        except Exception as e:
+            ok, err = False, type(e).__name__
+        return ok, err
+
+    def reads_for(st):
+        reads = []
+        reads_of_step = expand(st["rf"])
+        for ctx in ctxs:
+            row = []
+            for rns, loc, q, n in reads_of_step:
+                code = _spelling(sub(q), sub(n))
+                if loc is not None:
+                    code = f"(let* [{sub(loc[0])} {int(loc[1])}] {code})"
+                cur = rt.get_current_ns()
+                target = rt.Namespace.get(sym.symbol(sub(rns)))
+                if target is None:
+                    row.append("E9:NoNamespace")
+                elif target is cur:
+                    row.append(_obs(code, ctx))
+                else:
+                    with rt.bindings({_state["nsvar"]: target}):
+                        row.append(_obs(code, ctx))
+            reads.append(row)
+        return reads
+
+    def record(i, ok, err):
+        out[i] = {"ok": ok, "err": err, "reads": reads_for(steps[i])}
+
+    def push_form(i):
+        """(binding [ns/name v] (c10h/cb)): the callback runs the steps that follow, up to the pop
+        step that leaves this form; returns the index of the next step to run outside the form"""
+        op = steps[i]["op"]
+        entered = []
+
+        def cb():
+            entered.append(True)
+            record(i, True, None)                  # the push succeeded: we are inside the form
+            entered.append(exec_from(i + 1, True))
+            return None
+
+        _state["cbvar"].bind_root(cb)
+        err = None
+        try:
+            _eval(f"(basilisp.core/binding [{sub(op[1])}/{sub(op[2])} {int(op[3])}] (c10h/cb))", step_ctx)
+        except Exception as e:
+            err = type(e).__name__
+        if not entered:                            # compile error or push-thread-bindings raised
+            record(i, False, err or "NotEntered")
+            return i + 1
+        j = entered[1] if len(entered) > 1 else nsteps
+        if j < nsteps:                             # left through steps[j]: the form's finally popped (or raised)
+            record(j, err is None, err)
+            return j + 1
+        return nsteps                              # the history ended inside the form
+
+    def exec_from(i, in_form):
+        while i < nsteps:
+            op = steps[i]["op"]
+            if op[0] == "pop":
+                if in_form:
+                    return i
+                if rt_depth[0] > 0:
+                    rt_depth[0] -= 1               # pop_thread_bindings removes the frame before anything can raise
+                    try:
+                        rt.pop_thread_bindings()
+                        record(i, True, None)
+                    except Exception as e:
+                        record(i, False, type(e).__name__)
+                else:                              # no binding of ours is open (never pop the harness's own *ns* frame)
+                    record(i, False, "NoFrame")
+                i += 1
+            elif op[0] == "push":
+                if bind == "form":
+                    i = push_form(i)
+                    continue
+                var = interned(op[1], op[2])
+                if var is None:
+                    record(i, False, "NoVar")
+                else:
+                    try:
+                        rt.push_thread_bindings(_state["lmap"].map({var: int(op[3])}))
+                        rt_depth[0] += 1
+                        record(i, True, None)
+                    except Exception as e:
+                        record(i, False, type(e).__name__)
+                i += 1
+            else:
+                ok, err = base_step(op)
+                record(i, ok, err)
+                i += 1
+        return nsteps
+
     try:
         with rt.bindings({_state["nsvar"]: rt.Namespace.get(sym.symbol(nss[0]))}):
-            for st in case["steps"]:
-                op = st["op"]
-                ok, err = True, None
-                try:
-                    if op[0] == "def":
-                        _eval(f"(def {_meta(op[2])}{sub(op[1])} {int(op[3])})", step_ctx)
-                    elif op[0] == "in-ns":
-                        created.add(sub(op[1]))
-                        _eval(f"(basilisp.core/in-ns '{sub(op[1])})", step_ctx)
-                    elif op[0] == "require":
-                        if op[2] is None:
-                            _eval(f"(basilisp.core/require '{sub(op[1])})", step_ctx)
-                        else:
-                            _eval(f"(basilisp.core/require '[{sub(op[1])} :as {sub(op[2])}])", step_ctx)
-                    elif op[0] == "refer":
-                        if op[2]:
-                            names = " ".join(sub(x) for x in op[2])
-                            _eval(f"(basilisp.core/refer '{sub(op[1])} :only '[{names}])", step_ctx)
-                        else:
-                            _eval(f"(basilisp.core/refer '{sub(op[1])})", step_ctx)
-                    elif op[0] == "alter":
-                        ns = rt.Namespace.get(sym.symbol(sub(op[1])))
-                        var = ns.interns.val_at(sym.symbol(sub(op[2])), None) if ns is not None else None
-                        if var is None:
-                            ok, err = False, "NoVar"
-                        else:
-                            _state["alter"](var, _state["constantly"](int(op[3])))
-                    else:
-                        raise ValueError(f"bad op {op!r}")
-                except Exception as e:
-                    ok, err = False, type(e).__name__
-                reads = []
-                reads_of_step = expand(st["rf"])
-                for ctx in ctxs:
-                    row = []
-                    for rns, loc, q, n in reads_of_step:
-                        code = _spelling(sub(q), sub(n))
-                        if loc is not None:
-                            code = f"(let* [{sub(loc[0])} {int(loc[1])}] {code})"
-                        cur = rt.get_current_ns()
-                        target = rt.Namespace.get(sym.symbol(sub(rns)))
-                        if target is None:
-                            row.append("E9:NoNamespace")
-                        elif target is cur:
-                            row.append(_obs(code, ctx))
-                        else:
-                            with rt.bindings({_state["nsvar"]: target}):
-                                row.append(_obs(code, ctx))
-                    reads.append(row)
-                out.append({"ok": ok, "err": err, "reads": reads})
+            try:
+                exec_from(0, False)
+            finally:
+                while rt_depth[0] > 0:             # leave what the history left open (innermost first)
+                    rt_depth[0] -= 1
+                    try:
+                        rt.pop_thread_bindings()
+                    except Exception:
+                        pass
     finally:
         if files:
             _remove_files(prefix)
@@ -208,4 +307,4 @@ def run(case):
                 rt.Namespace.remove(sym.symbol(n))
             except Exception:
                 pass
-    return {"prefix": prefix, "steps": out}
+    return {"prefix": prefix, "steps": [o if o is not None else {"ok": False, "err": "NotRun", "reads": []} for o in out]}
